@@ -7,7 +7,7 @@ From Snax Require Import Base.Prelude Model.C20Phs Proofs.C20PhsProofs Proofs.C2
 Definition arg_emb (o s : src) : Prop := exists l, src_leaf o = Some l /\ In l (leaves s).
 Definition node_emb (G : pe) (c : node) : Prop :=
   exists a, find_node (pnodes G) (nid c) = Some a /\ Forall2 arg_emb (nargs c) (nargs a) /\
-            (forall k, In k (nops c) -> exists k', find_op (oname k) (nops a) = Some k').
+            (forall k, In k (nops c) -> exists k', find_op k (nops a) = Some k').
 (* every choose op of g exists in G with the same id, each of its operands is one of the sources the
    corresponding operand of G can select, its operations are among the alternatives (by name) *)
 Definition embeds (g G : pe) : Prop :=
@@ -315,10 +315,10 @@ Proof.
   destruct Hin as [->|Hin]; [rewrite Hy in Ea; inversion Ea; left; reflexivity|right; eapply IH; eauto].
 Qed.
 
-Lemma find_op_index name ops k : find_op name ops = Some k -> exists j, index_of_name name ops = Some j.
+Lemma find_op_index k0 ops k : find_op k0 ops = Some k -> exists j, index_of_op k0 ops = Some j.
 Proof.
-  induction ops as [|x r IH]; cbn [find_op index_of_name]; [discriminate|].
-  destruct (oname x =? name); [eauto|]. intros H. destruct (IH H) as [j ->]. eauto.
+  induction ops as [|x r IH]; cbn [find_op index_of_op]; [discriminate|].
+  destruct (opk_eqb x k0); [eauto|]. intros H. destruct (IH H) as [j ->]. eauto.
 Qed.
 
 Lemma wf_muxes_nodup G : pe_wf G = true -> NoDup (all_muxes G).
